@@ -67,6 +67,10 @@ CLAIMED = {
          "Decides the lock discipline and keep-set structure that make deletion safe for every interleaving: version lists only under the family-version mutex; current picked and retained in one hold; retain only in snapshot creation, release only in the CAS-guarded Close; "
          "a version forgotten only when not current; cleanup keep-set = pending (read first) + files of ALL active versions + live rollup files, evict before delete, table files only; readers closed only by the cache, time-based eviction only at ref==0; every snapshot value closed on all paths or handed to a listed owner; "
          "background jobs close their snapshot before cleaning. Races outside these scopes and content equality are not decided."),
+ 'C03': ("static analysis: single-commit and union rules over the compaction job, path rule that no iterator value is dropped (with infeasible-branch pruning), independent-bounds rule for the range union, anchor-freshness rule in the block writer, footer role/offset agreement, field-type table exhaustiveness/agreement and accepted forms of the binary aggregate",
+         "Decides structural necessary conditions of value-preserving compaction: one commit carries deletions of both input levels and all outputs; both input sets iterated; every iterator value reaches the merger's batch and the last batch is merged; merge errors abort, open outputs are finished; the merger unions series ids and (independently per bound) "
+         "slot ranges of all blocks, flushes each merged series and commits with that range; relative offsets in the block writer are only taken against an anchor re-captured after foreign bytes were written; block footer writer/reader agree per role; field-type tables are exhaustive and consistent; the combine step has the expected algebraic form. "
+         "Aggregate values over data, slot arithmetic in the series merger and decoding are not decided."),
  'C05': ("static analysis: lock-hold dataflow (ATOMIC), dominance (ORDER), value provenance and writer/reader layout agreement over go/ssa",
          "Decides, for every path of the append code as written, that one Put is a single write hold of queue.rwMutex covering cursor advance, data write, "
          "index entry, meta write and sequence publication; that data<index<meta<publish<signal is the only order; that the published sequence is appendedSeq+1 "
